@@ -53,6 +53,10 @@ type schedActor struct {
 	arg    int
 	done   bool
 	grant  chan struct{}
+
+	inBegin  bool // between begin/enter and begin/locked
+	inCommit bool // between commit/begin and commit/exit
+	holdsRes bool // closer: past the acquisition of the reserved lock
 }
 
 // SchedRun is one execution of a schedule.
@@ -102,7 +106,10 @@ func (sr *schedRun) hook(name string, arg int) {
 	}
 	a := v.(*schedActor)
 	switch name {
+	case "begin/enter":
+		a.inBegin = true
 	case "begin/locked":
+		a.inBegin = false
 		if arg == 0 {
 			sr.activeRW++
 			if sr.activeRW > 1 {
@@ -115,15 +122,43 @@ func (sr *schedRun) hook(name string, arg int) {
 		}
 	case "fclose/enter":
 		sr.closing = true
+	case "commit/begin":
+		a.inCommit = true
+	case "commit/exit":
+		a.inCommit = false
 	case "commit/switched":
 		// from here on the new state is what new transactions see (once the
 		// pending lock is released)
 		sr.commits++
+	case "fclose/exclusive":
+		// Close is about to unmap the file: it must hold the pending lock, or
+		// read transactions could be admitted into a file that is being closed
+		if _, pending, _ := sr.f.VerifLockState(); !pending {
+			sr.fail("close-without-pending", "File.Close passed its exclusive wait without the pending lock being set (readers could start during the unmap)")
+		}
 	}
 	switch name {
 	case "begin/enter", "commit/begin", "commit/pending-set", "commit/before-exclusive", "commit/exclusive-held", "commit/switched", "commit/exit",
 		"tx/unlock", "fclose/enter", "fclose/reserved", "fclose/pending", "fclose/exclusive", "rollback/wait", "commit/abort-wait":
 		sr.yield(a, name, arg)
+	}
+}
+
+// lockHook is called right before every acquisition of a transaction lock: the
+// would-block predicates of the scheduler are attached to the lock operations
+// themselves, not to the call sites.
+func (sr *schedRun) lockHook(name string, arg int) {
+	v, ok := sr.byGID.Load(curGID())
+	if !ok {
+		return
+	}
+	a := v.(*schedActor)
+	switch name {
+	case "lock/shared", "lock/reserved", "lock/exclusive":
+		sr.yield(a, name, arg)
+		if name == "lock/reserved" && a.kind == aCloser && a.Custom == nil {
+			a.holdsRes = true
+		}
 	}
 }
 
@@ -145,24 +180,44 @@ func (sr *schedRun) enabled(a *schedActor) bool {
 	if a.kind == aCloser && a.point == "start" {
 		// documented precondition: no Begin is in progress when Close is called
 		for _, o := range sr.actors {
-			if o != a && !o.done && o.point == "begin/enter" {
+			if o != a && !o.done && (o.inBegin || o.point == "begin/enter") {
 				return false
 			}
 		}
 	}
 	shared, pending, resFree := sr.f.VerifLockState()
 	switch a.point {
-	case "begin/enter":
-		if a.arg == 1 {
-			return !pending
-		}
+	case "lock/shared":
+		return !pending
+	case "lock/reserved":
 		return resFree
-	case "commit/before-exclusive", "fclose/pending":
+	case "lock/exclusive":
 		return shared == 0
-	case "fclose/enter":
-		return resFree
 	}
 	return true
+}
+
+// checkInvariant evaluates the lock state invariants at a decision point (no
+// actor is running).
+func (sr *schedRun) checkInvariant() {
+	if sr.closed || sr.viol != "" {
+		return
+	}
+	_, pending, _ := sr.f.VerifLockState()
+	if !pending {
+		return
+	}
+	// pending set = BeginReadonly would block now. Legitimate holders: a commit
+	// in progress, or File.Close after it got the reserved lock (no write
+	// transaction open any more).
+	for _, o := range sr.actors {
+		if o.inCommit || o.holdsRes {
+			return
+		}
+	}
+	if sr.activeRW > 0 {
+		sr.fail("readers-blocked-by-open-writer", "the pending lock is set (BeginReadonly would block) while a write transaction is open that is not committing and nobody holds the reserved lock for Close: read transactions do not run concurrently with the write transaction")
+	}
 }
 
 func (sr *schedRun) actorMain(a *schedActor) {
@@ -281,6 +336,7 @@ func runScheduleGeneric(kinds []actorKind, reps int, prefix []int, cs *CustomSet
 		return out
 	}
 	sr.f = f
+	defer f.VerifTraceLocks(sr.lockHook)()
 	if cs == nil {
 		// initial state: root page with version 0
 		tx, _ := f.Begin()
@@ -329,6 +385,7 @@ func runScheduleGeneric(kinds []actorKind, reps int, prefix []int, cs *CustomSet
 		if allDone {
 			break
 		}
+		sr.checkInvariant()
 		if sr.viol != "" {
 			break
 		}
